@@ -21,6 +21,8 @@ import (
 	"hash/adler32"
 	"io"
 	"math/big"
+	"net"
+	"os"
 	"runtime/debug"
 	"strconv"
 	"strings"
@@ -238,6 +240,39 @@ func (f *failRS) Seek(off int64, whence int) (int64, error) {
 	return int64(f.pos), nil
 }
 
+// classErr is a producer error of a particular class: its text is exactly the case's error text, but it unwraps
+// to a well-known sentinel and/or reports itself as a timeout (what a producer that reads from the network or
+// under a context returns).  How a rendering failure is handled must not depend on the class of the error.
+type classErr struct {
+	text    string
+	inner   error
+	timeout bool
+}
+
+func (e *classErr) Error() string   { return e.text }
+func (e *classErr) Unwrap() error   { return e.inner }
+func (e *classErr) Timeout() bool   { return e.timeout }
+func (e *classErr) Temporary() bool { return e.timeout }
+
+// producerError chooses the class from the first word of the text (the text itself is what the model sees).
+func producerError(text string) error {
+	switch {
+	case strings.HasPrefix(text, "timeout"):
+		return &classErr{text: text, timeout: true}
+	case strings.HasPrefix(text, "deadline"):
+		return &classErr{text: text, inner: os.ErrDeadlineExceeded, timeout: true}
+	case strings.HasPrefix(text, "ctx"):
+		return &classErr{text: text, inner: context.DeadlineExceeded, timeout: true}
+	case strings.HasPrefix(text, "canceled"):
+		return &classErr{text: text, inner: context.Canceled}
+	case strings.HasPrefix(text, "eof"):
+		return &classErr{text: text, inner: io.EOF}
+	case strings.HasPrefix(text, "closed"):
+		return &classErr{text: text, inner: net.ErrClosed}
+	}
+	return errors.New(text)
+}
+
 // Build constructs a fresh Msg from its specification.  Date, Message-ID and the MIME boundary are
 // fixed so that two Msg values built from the same specification render to the same bytes.
 func Build(i int, s MsgSpec) *mail.Msg {
@@ -266,7 +301,7 @@ func Build(i int, s MsgSpec) *mail.Msg {
 	m.SetDateWithValue(time.Unix(1700000000+int64(i), 0).UTC())
 	m.SetMessageIDWithValue(fmt.Sprintf("m%d.case@verif.test", i))
 	body := s.Body
-	errProducer := errors.New(s.errText())
+	errProducer := producerError(s.errText())
 	switch s.Kind {
 	case 'w':
 		k := s.K
@@ -392,7 +427,7 @@ func RunCase(c *Case) *Result {
 		if (s.Kind == 'w' || s.Kind == 'a') && rerr == nil {
 			// the specification says the producer fails: whether the rendering failed is not for the library's
 			// own WriteTo to decide (a WriteTo that swallows the producer's error must not fool the oracle)
-			rerr = fmt.Errorf("verif: WriteTo reported no error although the producer failed: %w", errors.New(s.errText()))
+			rerr = fmt.Errorf("verif: WriteTo reported no error although the producer failed: %w", producerError(s.errText()))
 		}
 		res.Contents = append(res.Contents, content)
 		res.Failed = append(res.Failed, rerr != nil)
